@@ -192,7 +192,8 @@ func (r *recorder) recordOutgoingRTCP(latestStats internalStats, v *outgoingRTCP
 			}
 			latestStats.InboundRTPStreamStats.NACKCount++
 		case *rtcp.SenderReport:
-			if !contains(pkt.DestinationSSRC(), r.ssrc) {
+			// Only this stream's own sender reports can be echoed in LSR fields about it.
+			if rtcpPkt.SSRC != r.ssrc {
 				r.logger.Debugf("skipping outgoing RTCP pkt: %v", pkt)
 
 				continue
